@@ -47,6 +47,13 @@ def run(P, rep, tier):
                        'only from the scanner or after the caller made its token\'s file current (path-insensitive: a guarded call counts as a call). '
                        'R18.11: the number argument of every new_file call is the registering function\'s fresh number or a template file\'s number. '
                        'R18.6 also decides that the #line operand is read as decimal (strto* with base 10 on the spelling, not Token.val of the integer-constant conversion). '
+                       'R18.12: every whole-Token write (struct assignment, memcpy, a helper doing so), every returned token, every token linked as next/origin or handed back through a Token ** '
+                       'in preprocess.c and tokenize.c is traced through the definitions of the locals involved (flow-insensitive; a static is read through only when a plain assignment dominates the read): '
+                       'a token taken from an object of static storage duration, a token made by a call outside the loop in which the overwritten token varies, or made from other tokens than the overwritten one, is a violation '
+                       '(tokens reached through a pointer kept in a table -- macro bodies -- are not judged). '
+                       'R18.2 also decides that a pass over the contents which hands a computed value to a callee that writes into the buffer (convert_universal_chars -> encode_utf8) has excluded the new-line on that path '
+                       '(bytes such a pass stores itself are not judged); R18.6 that the #line delta is not, on every path, N minus the line of a token of the directive '
+                       '(a directive ends where its new-line is; that a scan behind the last token counts exactly the new-lines of the comments is not decided). '
                        'Not decided: positions for all inputs end to end.')
     rep.assumptions += ['the output cursor of an in-place filter never overtakes its input cursor (reads see unmodified input)',
                         'no token starts at a newline character', 'calloc succeeds',
